@@ -57,18 +57,20 @@ unsigned MessageBase::extract_header(const f8String& from, char *len, char *mtyp
 	const unsigned flen(static_cast<unsigned>(from.size()));
 	char tag[MAX_MSGTYPE_FIELD_LEN], val[FIX8_MAX_FLD_LENGTH];
 	unsigned s_offset(0), result;
+	// extract_element copies without a limit: never show it more than tag, len and mtype (MAX_MSGTYPE_FIELD_LEN bytes each) can hold
+	const unsigned lim(MAX_MSGTYPE_FIELD_LEN - 1);
 
-	if ((result = extract_element(dptr, flen, tag, val)))
+	if ((result = extract_element(dptr, flen < lim ? flen : lim, tag, val)))
 	{
 		if (*tag != '8')
 			return 0;
 		s_offset += result;
-		if ((result = extract_element(dptr + s_offset, flen - s_offset, tag, len)))
+		if ((result = extract_element(dptr + s_offset, flen - s_offset < lim ? flen - s_offset : lim, tag, len)))
 		{
 			if (*tag != '9')
 				return 0;
 			s_offset += result;
-			if ((result = extract_element(dptr + s_offset, flen - s_offset, tag, mtype)))
+			if ((result = extract_element(dptr + s_offset, flen - s_offset < lim ? flen - s_offset : lim, tag, mtype)))
 			{
 				if (*tag != '3' || *(tag + 1) != '5')
 					return 0;
